@@ -93,7 +93,9 @@ def consumed_length(chk: Check, repo: Repo, mr: MayRaise, lbd: LowerBound) -> No
     ok_b = len(bodies) == 1 and ast.unparse(bodies[0].slice.upper) == end and bodies[0].slice.lower is not None
     chk.ob("body-ends-at-announced-length", fi.site(bodies[0] if bodies else None), ok_b, f"body slice(s): {[ast.unparse(b) for b in bodies]}; remainder from `{end}`", key="body-slice")
     # the body parser gets exactly that slice
-    bcalls = [c for c in calls(fi.node) if call_name(c) == "body.from_knx"]
+    body_cls_names = {c.name for c in repo.subclasses(repo.cls("xknx.knxip.body", "KNXIPBody"), strict=True)}
+    body_vars = {n.targets[0].id for n in walk_local(fi.node) if isinstance(n, ast.Assign) and len(n.targets) == 1 and isinstance(n.targets[0], ast.Name) and isinstance(n.value, ast.Call) and call_name(n.value) in body_cls_names}
+    bcalls = [c for c in calls(fi.node) if isinstance(c.func, ast.Attribute) and c.func.attr == "from_knx" and isinstance(c.func.value, ast.Name) and c.func.value.id in body_vars]
     bvar = None
     for n in walk_local(fi.node):
         if isinstance(n, ast.Assign) and bodies and n.value is bodies[0] and isinstance(n.targets[0], ast.Name):
@@ -150,9 +152,10 @@ def dispatch(chk: Check, repo: Repo) -> None:
     chk.floor("KNX/IP body classes", len(concrete), 28)
     arms: dict[str, list[str]] = {}
     n_arms = 0
+    body_names = {c.name for c in repo.subclasses(body_base, strict=True)}  # an arm is the construction of a body object, whatever the local is called
     for n in cfg.nodes:
         a = n.ast
-        if not (n.kind == "stmt" and isinstance(a, ast.Assign) and len(a.targets) == 1 and isinstance(a.targets[0], ast.Name) and a.targets[0].id == "body" and isinstance(a.value, ast.Call)):
+        if not (n.kind == "stmt" and isinstance(a, ast.Assign) and len(a.targets) == 1 and isinstance(a.targets[0], ast.Name) and isinstance(a.value, ast.Call) and call_name(a.value) in body_names):
             continue
         kname = call_name(a.value)
         key = None
